@@ -29,53 +29,7 @@ func c05(c *Ctx) {
 	}
 
 	// ---------------- R1
-	sites := map[*ssa.Function][]core.LockSite{}
-	for _, fn := range p.ModuleFuncs() {
-		if fn == m.ctor || (fn.Parent() != nil && fn.Parent() == m.ctor) {
-			continue
-		}
-		core.Calls(fn, func(ci ssa.CallInstruction) {
-			id := core.CalleeID(ci)
-			args := ci.Common().Args
-			switch {
-			case len(args) > 0 && m.isField(args[0], m.sizeFld) && (id == atomicU64+"Add" || id == atomicU64+"Store"):
-				sites[fn] = append(sites[fn], core.LockSite{Instr: ci, What: "usage counter " + strings.TrimPrefix(id, atomicU64)})
-			case id == batchCommit && fn.Signature.Recv() != nil && core.TypeName(fn.Signature.Recv().Type()) == m.typName:
-				sites[fn] = append(sites[fn], core.LockSite{Instr: ci, What: "batch commit"})
-			case core.StaticCalleeFn(ci) == m.prune:
-				sites[fn] = append(sites[fn], core.LockSite{Instr: ci, What: "call of prune"})
-			}
-		})
-	}
-	if len(m.mutexes) == 0 {
-		for _, fn := range core.SortedFuncs(sites) {
-			n := map[string]int{}
-			for _, s := range sites[fn] {
-				n[s.What]++
-				r.Fail("R1.accounting-lock", fmt.Sprintf("%s %s #%d", core.FuncName(fn), s.What, n[s.What]), p.Pos(core.InstrPos(s.Instr)),
-					"the store has no mutex: the usage counter's read-modify-write, the commit and prune are not in one critical section, so two concurrent over-capacity puts can both prune the same snapshot and both subtract the freed bytes (the usage figure then under-reports)")
-			}
-		}
-	} else {
-		lock := core.LockSpec{Type: m.typName, Field: m.mutexes[0]}
-		viols := p.CheckLockDiscipline(lock, sites, func(f *ssa.Function) bool { return f == m.ctor })
-		bad := map[ssa.Instruction]core.LockViolation{}
-		for _, v := range viols {
-			bad[v.Site] = v
-		}
-		for _, fn := range core.SortedFuncs(sites) {
-			n := map[string]int{}
-			for _, s := range sites[fn] {
-				n[s.What]++
-				key := fmt.Sprintf("%s %s #%d", core.FuncName(fn), s.What, n[s.What])
-				if v, isBad := bad[s.Instr]; isBad {
-					r.Fail("R1.accounting-lock", key, p.Pos(core.InstrPos(s.Instr)), "reachable without "+lock.String()+" from "+core.FuncName(v.Root)+": "+strings.Join(v.Chain, " <- "))
-				} else {
-					r.Pass("R1.accounting-lock", key, p.Pos(core.InstrPos(s.Instr)), lock.String()+" held on every call path")
-				}
-			}
-		}
-	}
+	accountingLockRule(c, m, "R1.accounting-lock")
 
 	// ---------------- R2 trigger in Put
 	adds := m.sizeOps(m.put, "Add")
@@ -359,4 +313,59 @@ func reaches(from, to *ssa.BasicBlock) bool {
 		st = append(st, b.Succs...)
 	}
 	return false
+}
+
+// accountingLockRule: the usage counter's read-modify-write, the batch commits and prune() run with one
+// mutex of the store held on every call path (the constructor owns the unpublished object and is exempt).
+// Shared by C05 (concurrent puts never under-report) and C17 (the persisted figure is the newest one:
+// size records are committed in the order their values were computed only inside one critical section).
+func accountingLockRule(c *Ctx, m *storeModel, rule string) {
+	p, r := c.P, c.R
+	sites := map[*ssa.Function][]core.LockSite{}
+	for _, fn := range p.ModuleFuncs() {
+		if fn == m.ctor || (fn.Parent() != nil && fn.Parent() == m.ctor) {
+			continue
+		}
+		core.Calls(fn, func(ci ssa.CallInstruction) {
+			id := core.CalleeID(ci)
+			args := ci.Common().Args
+			switch {
+			case len(args) > 0 && m.isField(args[0], m.sizeFld) && (id == atomicU64+"Add" || id == atomicU64+"Store"):
+				sites[fn] = append(sites[fn], core.LockSite{Instr: ci, What: "usage counter " + strings.TrimPrefix(id, atomicU64)})
+			case id == batchCommit && fn.Signature.Recv() != nil && core.TypeName(fn.Signature.Recv().Type()) == m.typName:
+				sites[fn] = append(sites[fn], core.LockSite{Instr: ci, What: "batch commit"})
+			case core.StaticCalleeFn(ci) == m.prune:
+				sites[fn] = append(sites[fn], core.LockSite{Instr: ci, What: "call of prune"})
+			}
+		})
+	}
+	if len(m.mutexes) == 0 {
+		for _, fn := range core.SortedFuncs(sites) {
+			n := map[string]int{}
+			for _, s := range sites[fn] {
+				n[s.What]++
+				r.Fail(rule, fmt.Sprintf("%s %s #%d", core.FuncName(fn), s.What, n[s.What]), p.Pos(core.InstrPos(s.Instr)),
+					"the store has no mutex: the usage counter's read-modify-write, the commit and prune are not in one critical section, so two concurrent over-capacity puts can both prune the same snapshot and both subtract the freed bytes (the usage figure then under-reports)")
+			}
+		}
+	} else {
+		lock := core.LockSpec{Type: m.typName, Field: m.mutexes[0]}
+		viols := p.CheckLockDiscipline(lock, sites, func(f *ssa.Function) bool { return f == m.ctor })
+		bad := map[ssa.Instruction]core.LockViolation{}
+		for _, v := range viols {
+			bad[v.Site] = v
+		}
+		for _, fn := range core.SortedFuncs(sites) {
+			n := map[string]int{}
+			for _, s := range sites[fn] {
+				n[s.What]++
+				key := fmt.Sprintf("%s %s #%d", core.FuncName(fn), s.What, n[s.What])
+				if v, isBad := bad[s.Instr]; isBad {
+					r.Fail(rule, key, p.Pos(core.InstrPos(s.Instr)), "reachable without "+lock.String()+" from "+core.FuncName(v.Root)+": "+strings.Join(v.Chain, " <- "))
+				} else {
+					r.Pass(rule, key, p.Pos(core.InstrPos(s.Instr)), lock.String()+" held on every call path")
+				}
+			}
+		}
+	}
 }
